@@ -626,10 +626,13 @@ impl BinArchive {
 
     pub fn deallocate(&mut self, address: usize, amount_in_bytes: usize, ge: bool) -> Result<()> {
         validate_address(address, self.size(), false)?;
-        validate_address(address + amount_in_bytes, self.size(), true)?;
+        let end = address
+            .checked_add(amount_in_bytes)
+            .ok_or(ArchiveError::OutOfBoundsAddress(address, self.size()))?;
+        validate_address(end, self.size(), true)?;
         validate_alignment(address, 4)?;
         validate_alignment(amount_in_bytes, 4)?;
-        self.data.drain(address..(address + amount_in_bytes));
+        self.data.drain(address..end);
         let filtered_text = filter_text_or_labels(&self.text, address, amount_in_bytes);
         let filtered_labels = filter_text_or_labels(&self.labels, address, amount_in_bytes);
         let filtered_pointers = filter_pointers(&self.pointers, address, amount_in_bytes);
